@@ -152,6 +152,17 @@ def build_gen():
     return True, ""
 
 
+def build_py():
+    """Python-side harness (lib/python header codec): `.build/py` wraps harness/py/c04py.py."""
+    os.makedirs(BUILD, exist_ok=True)
+    path = os.path.join(BUILD, "py")
+    tmp = path + ".%d" % os.getpid()
+    open(tmp, "w").write("#!/bin/sh\nexec python3 %s \"$@\"\n" % os.path.join(VERIF, "harness", "py", "c04py.py"))
+    os.chmod(tmp, 0o755)
+    os.replace(tmp, path)
+    return True, ""
+
+
 def generate_params():
     """Regenerate lean/FV/Generated/Params.lean from /repo's working tree (go/ast extractor)."""
     os.makedirs(BUILD, exist_ok=True)
